@@ -97,7 +97,12 @@ def gen_tables():
     # the element-type mapping of the HDF5 backend (backend/hdf5/h5x/H5DataType.cpp): Props/C01Types.lean
     out3 = os.path.join(LEAN, 'NixModel', 'Gen', 'Types.lean')
     rc3, o3 = sh([sys.executable, os.path.join(VERIF, 'gen', 'extract_types.py'), REPO, out3])
-    return rc3 == 0, o + o2 + o3
+    if rc3 != 0:
+        return False, o + o2 + o3
+    # every exception handler of the library, and whether it re-raises: Props/C09Catches.lean
+    out4 = os.path.join(LEAN, 'NixModel', 'Gen', 'Catches.lean')
+    rc4, o4 = sh([sys.executable, os.path.join(VERIF, 'gen', 'extract_catches.py'), REPO, out4])
+    return rc4 == 0, o + o2 + o3 + o4
 
 def lake(target):
     env = dict(os.environ)
